@@ -1,3 +1,4 @@
-import Secp.Spec.Basic
-import Secp.Spec.Field
-import Secp.Spec.Curve
+-- Root of the `Secp` library: everything `setup.sh` builds once.
+import Secp.Driver
+import Secp.Props.C09
+import Secp.Props.C19
